@@ -301,7 +301,10 @@ class Device(SubProgram):
         """
         ret = defaultdict(lambda: False)
         for pv in self.__dict__.values():
-            if isinstance(pv, (PacketVar, Struct)):
+            if isinstance(pv, Struct):
+                # any member may be an output
+                ret[pv.terminal] = True
+            elif isinstance(pv, PacketVar):
                 ret[pv.terminal] |= pv.sm is SyncManager.OUT
         return ret
 
